@@ -339,6 +339,10 @@ pub fn totality_texts(tier: Tier) -> Vec<(String, String)> {
         let params: Vec<String> = (0..k).map(|i| format!("bytes memory p{}", i)).collect();
         v.push((format!("count:params:{}", k), format!("pragma solidity 0.8.19;\ncontract C {{ function f({}) public {{}} }}\n", params.join(", "))));
     }
+    // files without a single definition
+    for (nm, t) in [("empty", ""), ("one-line-feed", "\n"), ("blank-lines", "\n\n  \n"), ("line-comment", "// nothing here"), ("line-comment-lf", "// nothing here\n"), ("block-comment", "/* nothing\n here */"), ("blanks-no-lf", "   ")] {
+        v.push((format!("nothing:{}", nm), t.to_string()));
+    }
     // inputs that are extreme in one dimension (src/scale.rs): widths around 64 / 256, findings around 256 / 1000, line numbers
     // beyond 16 bits, a 70 KB line, string lengths around 256, literal / try / identifier shapes
     for (label, text, _) in crate::scale::width_items(tier == Tier::Thorough)
